@@ -611,6 +611,12 @@ impl<P: FpConfig<N>, const N: usize> CanonicalDeserializeWithFlags for Fp<P, N> 
         masked_bytes.read_exact_up_to(reader, output_byte_size)?;
         let flags = F::from_u8_remove_flags(&mut masked_bytes[output_byte_size - 1])
             .ok_or(SerializationError::UnexpectedFlags)?;
+        // When the flags need a byte of their own (modulus bit size a multiple of 64), that byte
+        // holds nothing but flags: bits left in it after removing them are not part of any
+        // encoding, and ignoring them would let several byte strings decode to the same element.
+        if masked_bytes[8 * N] != 0 {
+            return Err(SerializationError::InvalidData);
+        }
 
         let self_integer = masked_bytes.to_bigint();
         Self::from_bigint(self_integer)
